@@ -165,6 +165,43 @@ def _is_seed(x):
     return c == 1 and len(m) == 1 and m[0][1] == 1 and m[0][0][0] == "fn" and m[0][0][1] == "SEED"
 
 
+def r06_7(ctx):
+    """Whatever __call__ itself remembers between calls must not change an answer.  Two queries with different raw end
+    points that quantise to the same grid points are made one after the other on the same object (the tree search is
+    mocked: both are covered by the same two stored pieces); the second answer must be what a fresh object, asked only the
+    second query, returns.  (W and A depend on the grid points only; the merged H and hence U also on the raw end points,
+    so an answer recalled for 'the same query after rounding' is not the answer to this query.)"""
+    rep, model = ctx.rep, ctx.model
+    rep.rule("R06.7", "two consecutive queries that coincide after rounding: the second answer equals that of a fresh object "
+                      "(nothing remembered between calls alters a value)")
+    call = model.func(BI, "BrownianInterval.__call__")
+    rep.analysed(call)
+    ta, tb = nf.sym("ta", True), nf.sym("tb", True)
+    a1, b1, a2, b2 = (nf.sym(n, True) for n in ("ta_first", "tb_first", "ta_second", "tb_second"))
+    table = [(a1, ta), (a2, ta), (b1, tb), (b2, tb)]
+    F = Fraction
+    for have_A in (False, True):
+        order = {"T0": F(0), "ta": F(1), "u1": F(2), "tb": F(3), "T1": F(100), "TOL": F(1, 10), "DT": F(1, 7), "TREE_DT": F(1),
+                 "ta_first": F(1) + F(1, 100), "ta_second": F(1) + F(2, 100), "tb_first": F(3) + F(1, 100), "tb_second": F(3) - F(1, 100)}
+        def hooks():
+            h = bk.BrownianHooks()
+            h.ordering = dict(order)
+            return h
+        fresh = bk.eval_call(model, 2, True, have_A, hooks=hooks(), query=(a2, b2), round_table=table)
+        first = bk.eval_call(model, 2, True, have_A, hooks=hooks(), query=(a1, b1), round_table=table)
+        second = bk.eval_call(model, 2, True, have_A, hooks=hooks(), query=(a2, b2), round_table=table, me=first["me"])
+        got, want = second["out"], fresh["out"]
+        ok = isinstance(got, tuple) and isinstance(want, tuple) and len(got) == len(want) and \
+            all(nf.equal(x, y) for x, y in zip(got, want))
+        names = ["W", "U", "A"][:len(want)] if isinstance(want, tuple) else []
+        diff = [n for n, x, y in zip(names, got, want) if not nf.equal(x, y)] if isinstance(got, tuple) and isinstance(want, tuple) and len(got) == len(want) else ["shape"]
+        rep.check(ok, "R06.7", astq.loc(call), f"{call.key}::R06.7::same-grid-points::A={have_A}",
+                  f"after a query (ta', tb') with the same quantised end points, bm(ta, tb, return_U=True{', return_A=True' if have_A else ''}) "
+                  f"returns a different {' / '.join(diff)} than a fresh object does: the value of an interval depends on what was "
+                  f"asked just before", "second answer == fresh answer")
+    ctx.floor("R06.7", 2)
+
+
 def r06_2(ctx):
     rep, model = ctx.rep, ctx.model
     rep.rule("R06.2", "dyadic mode: the requested point never flows into the point at which a node is split")
@@ -457,3 +494,4 @@ def run(ctx):
     from . import c05
     ctx.guard(c05.r05_5)
     ctx.guard(r06_6)
+    ctx.guard(r06_7)
